@@ -591,12 +591,53 @@ pub fn record_walk(opts: &Opts) -> i32 {
             }
             writeln!(out, "{ev}").unwrap();
             events += 1;
+            // neighbours of the board that differ in exactly one component of the position's identity
+            // (en-passant marker dropped, one castling right dropped) or only in the clocks: what `==`
+            // says about the pair, and both hashes ("boards that compare equal always hash equal")
+            if accepted && has_both_kings(&board) && (board.verif_ep_file().is_some() || events % 7 == 0) {
+                for v in field_variants(&board) {
+                    let cmp = json!({"ev": "cmp", "a": pos_json(&board), "b": pos_json(&v), "eq": board == v,
+                                     "za": limbs(board.zobrist()), "zb": limbs(v.zobrist())});
+                    writeln!(out, "{cmp}").unwrap();
+                    events += 1;
+                    t.inc("compared_pairs");
+                }
+            }
         }
     }
     out.flush().unwrap();
     t.add("events", events);
     t.summary(json!({"out": out_path}));
     0
+}
+
+/// boards obtained from the text of `board` with one field changed: no en-passant marker, one
+/// castling right less, other clocks (only those the parser accepts)
+fn field_variants(board: &Board) -> Vec<Board> {
+    let text = board.to_string();
+    let f: Vec<&str> = text.split(' ').collect();
+    let mut out = vec![];
+    if f.len() != 6 {
+        return out;
+    }
+    let mut texts: Vec<String> = vec![];
+    if f[3] != "-" {
+        texts.push(format!("{} {} {} - {} {}", f[0], f[1], f[2], f[4], f[5]));
+    }
+    if f[2] != "-" {
+        for ch in f[2].chars() {
+            let rest: String = f[2].chars().filter(|&c| c != ch).collect();
+            let rest = if rest.is_empty() { "-".to_string() } else { rest };
+            texts.push(format!("{} {} {} {} {} {}", f[0], f[1], rest, f[3], f[4], f[5]));
+        }
+    }
+    texts.push(format!("{} {} {} {} {} {}", f[0], f[1], f[2], f[3], "7", "77"));
+    for t in texts {
+        if let Ok(b) = t.parse::<Board>() {
+            out.push(b);
+        }
+    }
+    out
 }
 
 // ------------------------------------------------------------------------------------------------
